@@ -51,6 +51,10 @@ Definition rel_close (a b : Qc) : bool := Qc_leb (Qc_abs (a - b)) (Q2Qc (1 # 100
             return d
         a = list(c["a"]) if c["list_input"] else np.array(c["a"], dtype=float)
         a0 = np.array(c["a"], dtype=float)
+        snr = c.get("snr")
+        if isinstance(snr, list) and not c["list_input"]:
+            snr = np.array(snr, dtype=float)       # the caller's own per-sample array
+        snr0 = np.array(snr, dtype=float).copy() if snr is not None else None
         np.random.normal = rec
         try:
             with warnings.catch_warnings():
@@ -58,8 +62,10 @@ Definition rel_close (a b : Qc) : bool := Qc_leb (Qc_abs (a - b)) (Q2Qc (1 # 100
                 if c["mode"] == "std":
                     r = P.noise_gauss(a, std=c["std"])
                 else:
-                    r = P.noise_gauss(a, snr=c["snr"], snr_in_db=c["mode"].startswith("db"))
-            return {"out": np.asarray(r, dtype=float).tolist(), "calls": calls, "input_changed": not np.array_equal(np.asarray(a, dtype=float), a0)}
+                    r = P.noise_gauss(a, snr=snr, snr_in_db=c["mode"].startswith("db"))
+                    P.noise_gauss(a, snr=snr, snr_in_db=c["mode"].startswith("db"))     # same arguments again: same scale expected
+            return {"out": np.asarray(r, dtype=float).tolist(), "calls": calls[:1], "second": calls[1:],
+                    "input_changed": not np.array_equal(np.asarray(a, dtype=float), a0) or (snr0 is not None and not np.array_equal(np.asarray(snr, dtype=float), snr0))}
         except Exception as e:
             return {"exc": exn_name(e), "exc_msg": str(e)[:100]}
         finally:
@@ -98,7 +104,9 @@ Definition rel_close (a b : Qc) : bool := Qc_leb (Qc_abs (a - b)) (Q2Qc (1 # 100
         call = o["calls"][0]
         a = np.array(c["a"], dtype=float)
         if o["input_changed"]:
-            fail("input-mutated", "the signal handed in was modified")
+            fail("input-mutated", "an array handed in by the caller (signal or per-sample snr) was modified")
+        if o.get("second") and o["second"][0]["scale"] != call["scale"]:
+            fail("reproducible", "the same call repeated with the same arguments uses another scale: %s then %s" % (call["scale"][:4], o["second"][0]["scale"][:4]))
         if call["loc"] != 0:
             fail("zero-mean", "noise drawn with loc=%s" % call["loc"])
         if call["size"] != [len(a)]:
